@@ -6,7 +6,7 @@
 
 use super::puppet::{query_answer, Kind, NodeRt, QNodeRt, QRes, ReadRes, ReplyRec, TraceEntry, XMsg, XQuery, XQueryResp};
 use super::types::*;
-use crate::engines::builder::classic_canonical;
+use crate::util::classic_canonical;
 use crate::util::Kv;
 use cosmwasm_std::testing::MockApi;
 use cosmwasm_std::{
@@ -85,6 +85,12 @@ pub enum Why {
     AfterCaught,
     /// a failure propagates from here (no further sibling may run)
     AfterUncaught,
+    /// an instantiate / migrate entry point is about to run (the registry accepted the request)
+    Starts,
+    /// the registry rejects the request (unknown code, duplicate address, bad salt, empty label, no such contract)
+    RegistryReject,
+    /// the sender is not the contract's current admin
+    Unauthorized,
     Plain,
 }
 
@@ -750,21 +756,23 @@ impl<'a> Interp<'a> {
             CosmosMsg::Wasm(WasmMsg::Instantiate { admin, code_id, msg, funds, label }) => self.instantiate(sender, admin.clone(), *code_id, msg, funds, label, None, depth),
             CosmosMsg::Wasm(WasmMsg::Instantiate2 { admin, code_id, msg, funds, label, salt }) => self.instantiate(sender, admin.clone(), *code_id, msg, funds, label, Some(salt.to_vec()), depth),
             CosmosMsg::Wasm(WasmMsg::Migrate { contract_addr, new_code_id, msg }) => {
-                let fail = |s: &mut Self| {
+                let fail = |s: &mut Self, w: Why| {
                     s.failures += 1;
+                    s.why(w);
                     Err(())
                 };
                 if !Self::valid_addr(contract_addr) || !self.fx.codes.contains_key(new_code_id) {
-                    return fail(self);
+                    return fail(self, Why::RegistryReject);
                 }
                 let Some(ci) = self.st.contracts.get_mut(contract_addr) else {
-                    return fail(self);
+                    return fail(self, Why::RegistryReject);
                 };
                 if ci.admin.as_deref() != Some(sender) {
-                    return fail(self);
+                    return fail(self, Why::Unauthorized);
                 }
                 ci.code_id = *new_code_id;
                 let node = Self::node_of(msg);
+                self.why(Why::Starts);
                 let out = match self.run_node(Kind::Migrate, contract_addr, node, None, &[], None, depth) {
                     Ok(o) => o,
                     Err(()) => return Err(()),
@@ -790,8 +798,14 @@ impl<'a> Interp<'a> {
                 ci.admin = new_admin;
                 Ok(Resp { events: vec![], data: None })
             }
+            (true, Some(_)) => {
+                self.failures += 1;
+                self.why(Why::Unauthorized);
+                Err(())
+            }
             _ => {
                 self.failures += 1;
+                self.why(Why::RegistryReject);
                 Err(())
             }
         }
@@ -806,6 +820,7 @@ impl<'a> Interp<'a> {
     fn instantiate(&mut self, sender: &str, admin: Option<String>, code_id: u64, msg: &Binary, funds: &[Coin], label: &str, salt: Option<Vec<u8>>, depth: usize) -> R<Resp> {
         let fail = |s: &mut Self| {
             s.failures += 1;
+            s.why(Why::RegistryReject);
             Err(())
         };
         if label.is_empty() {
@@ -829,9 +844,11 @@ impl<'a> Interp<'a> {
         self.st.order.push(addr.clone());
         if !funds.is_empty() && self.bank_send(sender, &addr, funds).is_err() {
             self.why(Why::Overdraft);
-            return fail(self);
+            self.failures += 1;
+            return Err(());
         }
         let node = Self::node_of(msg);
+        self.why(Why::Starts);
         let out = self.run_node(Kind::Instantiate, &addr, node, Some(sender), funds, None, depth)?;
         let entry = Event::new("instantiate").add_attribute("_contract_address", &addr).add_attribute("code_id", code_id.to_string());
         let r = self.compose(&addr, entry, out, node, depth)?;
